@@ -93,7 +93,7 @@ func init() {
 	}
 	registry["C20"] = &propCfg{
 		Engine: kcache.Engine{}, EngineName: "kcache", Level: "exploration",
-		QuickRuns: 400000, ThoroughRuns: 6000000, QuickCapS: 60, ThoroughCapS: 900,
+		QuickRuns: 300000, ThoroughRuns: 6000000, QuickCapS: 60, ThoroughCapS: 900,
 		Rule: "one run = one Unfolder with EnableKeyCache(n), n drawn from {0,1,2,3,5,64,1000} or exactly the number of distinct keys +-1, fed a history of 1-8 (thorough: 1-16) documents whose object keys come from a structured alphabet of 1-8 keys (common prefix/suffix at equal length, nested prefixes, one differing middle byte, multi-byte runes, single bytes 0x80-0xff, arbitrary bytes, NUL-padding/length-byte collisions, very long keys around 4096/8192/65536 bytes), written by the independent writers in a drawn format and parsed by the real parser under per-document chunk schedules with chunk buffers scribbled after every write, into a drawn map-bearing target type; all targets are inspected only after the whole history; evaluations = histories; distinct by (capacity, format, target, documents, schedules); every history is non-trivial (keys delivered by reference through the cache)",
 		Components: map[string][]string{
 			"real": {"gotype.Unfolder incl. symbolCache", "json/ubjson/cborl Parser"},
@@ -101,8 +101,8 @@ func init() {
 		Assumptions: []string{"oracle: the same history on an unfolder without key cache", "eviction order itself is not asserted (not part of the property)"},
 	}
 	registry["C14"] = &propCfg{
-		Engine: abandon.Engine{}, EngineName: "abandon", Level: "exploration", RacePhaseRuns: 40000,
-		QuickRuns: 300000, ThoroughRuns: 6000000, QuickCapS: 60, ThoroughCapS: 900,
+		Engine: abandon.Engine{}, EngineName: "abandon", Level: "exploration", RacePhaseRuns: 30000,
+		QuickRuns: 200000, ThoroughRuns: 6000000, QuickCapS: 60, ThoroughCapS: 900,
 		Rule: "one run = one (well-formed stream, target type) pair - the stream is the fold of a catalogue value of the target's or another type, a generated stream (typed hints, deep chains), hand-made events for the self-nesting Tree type, 1 in 3 then mutated in the middle (subtree replaced, members rotated or dropped); the target any catalogue type incl. an unsupported one, 1 in 3 pre-populated, 1 in 4 with user-defined unfolders (three styles) - abandoned after k events for EVERY k (24 sampled + complete if >40 events), with announced lengths of still-open containers inflated to {2^16,2^20,2^31-1,2^31,2^40,2^62,2^63-1} in half of the cases; then Reset, SetTarget and a compatible probe document (1 in 3 of the same type); evaluations = (stream,target,k) triples; distinct by (target, delivered prefix, announcements, probe type); all are non-trivial (a crash point or a complete mismatching document); the first 40000 runs are repeated under the -race build",
 		Components: map[string][]string{
 			"real": {"gotype.Unfolder (all generated and reflection based unfolder states, Reset, SetTarget)", "gotype.Fold (stream source)"},
